@@ -158,6 +158,8 @@ def drive_transitions(dump, pairs):
     for k, e in enumerate(dump["states"]):
         if e["isEnd"]:
             continue
+        if json.dumps(e["state"]) not in pairs:
+            continue
         pst = pairs[json.dumps(e["state"])]
         for st in dump["steps"][k]:
             kind, oracle, hit = st["kind"][1:], st["oracle"], st["hit"]
@@ -183,6 +185,8 @@ def drive_transitions(dump, pairs):
                 t = e["trans"][hit - 1]
                 covered.add((pst, hit))
                 exp_ev = [list(x) for x in t["prods"]]
+                if json.dumps(t["target"]) not in pairs:
+                    continue        # the state map is incomplete (the static comparison already reported why)
                 exp_new = pairs[json.dumps(t["target"])]
                 got_ev = b.events[0] if b.events else b.cur
                 if new != exp_new or got_ev != exp_ev or ctx.errors:
